@@ -902,6 +902,7 @@ func readRouteSelectionOptionsFromAPIStruct(c *oc.RouteSelectionOptions, a *api.
 		c.Config.AdvertiseInactiveRoutes = a.Config.AdvertiseInactiveRoutes
 		c.Config.EnableAigp = a.Config.EnableAigp
 		c.Config.IgnoreNextHopIgpMetric = a.Config.IgnoreNextHopIgpMetric
+		c.Config.DisableBestPathSelection = a.Config.DisableBestPathSelection
 	}
 }
 
